@@ -42,7 +42,9 @@ FILE_POOL = ["f.txt", "o.txt", "d/e.txt", "out.stdout", "q.r/c-d.dat"]
 WORDS = ["run", "-x", "--flag", "1", "0.5", "v_1", "stage0", "stage1", "ref", "output", "input", "data", "x.y"]
 CONTENT_POOL = ["42", "hello world", "a b  c", "v1\n", "x\n\n", " lead", "multi\nline", "", "0", "-n 3",
                 "café", "/some/path", "tab\there", "alpha\r\nbeta\r\n", "step 1/2\rstep 2/2\rdone\n", "cr\r",
-                "\x0bvt\x0c", "trail \n"]
+                "\x0bvt\x0c", "trail \n",
+                # larger than any plausible read buffer / argument limit: the whole file is the value
+                " ".join("e%05d" % i for i in range(24000)), "0123456789" * 30000 + "END"]
 
 
 @st.composite
